@@ -96,6 +96,29 @@ def check_program(L: harness.Loaded, prog: Dict[str, Any], part: Part) -> None:
         for v in values:
             if v not in free:
                 part.violation(f"C08/{tag}/settable-but-not-free", case, f"value for {v!r} accepted although it is not reported as free")
+    # responses: the prefix and the static length must hold for EVERY triggering request, also when the same Response object
+    # is asked again with another request of the same length, and for requests that end inside an echoed range
+    if request is not None and type(msg).__name__ == "Response" and accepted_full:
+        values = accepted_full[0]
+        alt = bytes((b + 0x11) & 0xFF for b in request)
+        variants = [request, alt, request] + [request[:n] for n in range(len(request))]
+        for rq in variants:
+            part.count("evaluations")
+            case = {"program": dict(prog_case(prog), request=jval(rq)), "values": jval(values)}
+            try:
+                pre = bytes(msg.coded_const_prefix(request_prefix=rq))
+            except Exception as ex:  # noqa
+                part.violation(f"C08/{tag}/prefix-raises/{type(ex).__name__}", case, str(ex)[:150])
+                continue
+            pdu, exc, _ = harness.odx_encode(msg, values, rq)
+            if exc is not None:
+                continue
+            part.count("response_request_variants")
+            if not pdu.startswith(pre):
+                part.violation(f"C08/{tag}/prefix-is-no-prefix/other-request", case, f"request {rq.hex()}: coded_const_prefix {pre.hex()} but PDU {pdu.hex()}")
+            if static is not None and 8 * len(pdu) != static:
+                part.violation(f"C08/{tag}/static-length-differs/other-request", case,
+                               f"request {rq.hex()}: static bit length {static}, encoding has {8 * len(pdu)} bits ({pdu.hex()})")
     # required = exactly those whose omission makes encoding fail (all subsets of the supplied parameters)
     for values in accepted_full[:1]:
         keys = sorted(values)
